@@ -286,7 +286,7 @@ def shard_d1(acc, shard, nshards, params):
                 for b in bs:
                     yield (zc, ac, b, owned, default)
     core.drive(acc, "d1", case_d1, gen(), shard, nshards,
-               family="depth1[N=%d,%s,default=%d,acts=%s]" % (n, "owned" if owned else "unowned", default, acts))
+               family="depth1[N=%d,%s,default=%s,acts=%s]" % (n, "owned" if owned else "unowned", default, acts))
 
 
 def shard_d1u(acc, shard, nshards, params):
@@ -388,14 +388,69 @@ def shard_d2u(acc, shard, nshards, params):
                family="depth2-U-upper-source[T2(2,2)^2]")
 
 
-CASES = {"d1": case_d1, "d1u": case_d1u, "deep": case_deep, "d2u": case_d2u}
+def case_d2own(case):
+    """Depth-2 assign kernel whose source belongs to a tensor with leaf default 7
+    while its fibers were built with default 0 (stored zeros are values there):
+    what the source presents is decided by the owning rank's default."""
+    aspec, zdefault = case
+    out = []
+    feats = {"depth:2", "source_rank_default_differs_from_fiber_default"} | {"a:" + f for f in tree_features(aspec, 2)}
+    try:
+        A = Tensor.fromFiber(["M", "N"], mktree(aspec, 2, tag=2, default=0), shape=[2, 2], default=7)
+        Z = Tensor(rank_ids=["M", "N"], shape=[2, 2], default=zdefault)
+        before = (rawtensor(A), rank_index_view(A))
+        rows, got = [], {}
+        for m, (z_n, a_n) in Z.getRoot() << A.getRoot():
+            rows.append(m)
+            for n, (zr, av) in z_n << a_n:
+                zr <<= av
+                got[(m, n)] = unbox(av)
+        # the values the oracle expects are read back from the source's stored leaves
+        stored = {}
+        ra = A.getRoot()
+        for m, f in zip(ra.coords, ra.payloads):
+            for n, pl in zip(f.coords, f.payloads):
+                if unbox(pl) != 7:
+                    stored[(m, n)] = unbox(pl)
+        exp_rows = sorted({m for m, _ in stored})
+        if rows != exp_rows:
+            out.append(("populate", "yield-sequence", feats, exp_rows, rows))
+        elif got != stored:
+            out.append(("populate", "offered-leaves", feats, stored, got))
+        zexp = {p: v for p, v in stored.items() if v != zdefault}
+        if content(Z, zdefault) != zexp:
+            out.append(("populate", "content", feats, zexp, content(Z, zdefault)))
+        after = (rawtensor(A), rank_index_view(A))
+        if after != before:
+            out.append(("populate", "source-modified", feats, before, after))
+        w = wf(Z.getRoot())
+        m_ = mirror(Z)
+        if w or m_:
+            out.append(("populate", "destination-ill-formed-after-loop", feats, None, [w, m_]))
+        if any(v == 0 for v in stored.values()):
+            core.CUR.nt("populate")
+            core.CUR.path("d2own:stored-zero-is-a-value")
+    except Exception as ex:
+        out.append(("populate", "exception:" + type(ex).__name__, feats | {"site:" + core.exc_site(ex)},
+                    None, core.tb_tail(ex)))
+    return out
+
+
+def shard_d2own(acc, shard, nshards, params):
+    core.drive(acc, "d2own", case_d2own, ((a, zd) for a in t2(2, 2) for zd in (7, 0)), shard, nshards,
+               family="depth2-source-owned-default7[T2(2,2)]")
+
+
+CASES = {"d2own": case_d2own, "d1": case_d1, "d1u": case_d1u, "deep": case_deep, "d2u": case_d2u}
 
 
 def run(ctx):
     import time
     q = ctx.quick
     ctx.bounds = {
-        "depth1": "z, a in F1(N,{-,0,v}) x all bodies over {l,s,z,p}: N=%d unowned; N=3 owned by a tensor; N=3 leaf default 7" % (4 if q else 5),
+        "depth1": "z, a in F1(N,{-,0,v}) x all bodies over {l,s,z,p}: N=%d unowned; N=3 owned by a tensor; N=3 leaf default 7; float leaf default 0.5 (N=3 owned, N=2 unowned)" % (4 if q else 5),
+        "depth2-owner-default": "source = tensor with leaf default 7 over fibers built with default 0 (stored zeros are values), T2(2,2), "
+                                "assign kernel into an empty tensor with default 7 / 0: offered rows and leaves, content, source untouched",
         "depth1-U-source": "source rank uncompressed with every active range, N=3, bodies over {l,p,z}",
         "depth2": "z, a in T2(2,2,{-,0,v}) owned and unowned x all descend/skip x leaf bodies over %s" % ("{l,p}" if q else "{l,p,z}"),
         "depth3": "T3(2,2,2) destinations with <=%d fibers+leaves, sources with <=%d, leaf bodies {l,p}" % ((3, 3) if q else (4, 4)),
@@ -404,6 +459,9 @@ def run(ctx):
     ctx.shards(shard_d1, (3, True, 0, LEAF_ACTS))
     ctx.shards(shard_d1, (3, False, 7, LEAF_ACTS))
     ctx.shards(shard_d1, (3, True, 7, "lzp"))
+    ctx.shards(shard_d1, (3, True, 0.5, "lzp"))
+    ctx.shards(shard_d1, (2, False, 0.5, "lzp"))
+    ctx.shards(shard_d2own, None)
     ctx.shards(shard_d1u, (3, "lpz"))
     ctx.shards(shard_d2u, None)
     ctx.bounds["depth2-U-upper-source"] = "z, a in T2(2,2), a's upper rank declared uncompressed, accumulate body; source tensor snapshot incl. rank lists"
